@@ -9,6 +9,7 @@ from ..kinds import reach
 from ..model import AnalysisError, unparse
 from ..report import RuleResult
 from ..roles import bound_from, canon, returned_names, writer_roles
+from ._c04_util import OPAQUE, PARAM, Reaching, Scope, atoms, call_name, contains, guards_of, nview
 
 _plain = unparse
 
@@ -21,16 +22,33 @@ KINDS = {
                        "hasattr:values": False, "hasattr:surveys": False, "hasattr:properties": True},
 }
 
+_OBJECT_IDS = ("self.concatenated_object_ids", "self._concatenated_object_ids")
 
-def events(fn, var, facts, removing=False):
-    """Store events reachable in `fn` when its parameter `var` is of the given kind."""
+
+def _arg(call, pos, name):
+    """Argument of a call given by position or by keyword."""
+    if len(call.args) > pos and not any(isinstance(a, ast.Starred) for a in call.args[: pos + 1]):
+        return call.args[pos]
+    for k in call.keywords:
+        if k.arg == name:
+            return k.value
+    return None
+
+
+def _is_true(e) -> bool:
+    return isinstance(e, ast.Constant) and e.value is True
+
+
+def events(fn, var, facts, removing=False, project=None):
+    """Store events reachable in `fn` (a normalised view) when its parameter `var` is of the given kind."""
     g = CFG(fn.node)
     nodes = reach(g, [g.entry], var, facts)
     out = set()
     # local aliases by role: the id list read from self, the parent read from the entity
-    roles = {nm: "object_ids" for nm in bound_from(fn.node, lambda e: _plain(e) in ("self.concatenated_object_ids", "self._concatenated_object_ids"))}
+    roles = {nm: "object_ids" for nm in bound_from(fn.node, lambda e: _plain(e) in _OBJECT_IDS)}
     roles.update({nm: "parent" for nm in bound_from(fn.node, lambda e: isinstance(e, ast.Attribute) and e.attr == "parent")})
-    unparse = lambda n: canon(n, roles)  # noqa: E731
+    sc = Scope(fn, project, keep=roles)
+    unparse = lambda n: canon(sc.expand(n), roles)  # noqa: E731  (temporaries and hoisted keys expanded, role names canonical)
     for n in nodes:
         if n.ast is None or isinstance(n.ast, list):
             continue
@@ -38,34 +56,42 @@ def events(fn, var, facts, removing=False):
         for x in ast.walk(src) if n.kind != "with" else []:
             if isinstance(x, ast.Call) and isinstance(x.func, ast.Attribute):
                 f = x.func.attr
+                recv = unparse(x.func.value)
                 if f == "update_concatenated_attributes":
                     out.add(("S1 attribute record", "ins"))
-                elif f == "update_array_attribute" and len(x.args) >= 2:
-                    lab = x.args[1]
+                elif f == "update_array_attribute" and _arg(x, 0, "entity") is not None and _arg(x, 1, "field") is not None:
+                    lab = sc.expand(_arg(x, 1, "field"))
                     if isinstance(lab, ast.Name) and ("const:" + lab.id) in facts:
                         lab = ast.Constant(value=facts["const:" + lab.id])
-                    label = lab.value if isinstance(lab, ast.Constant) else "<name>" if unparse(lab).endswith(".name") else unparse(lab)
-                    rm = any(k.arg == "remove" and unparse(k.value) == "True" for k in x.keywords)
-                    who = unparse(x.args[0])
-                    out.add((f"S2 rows[{label}] of {('parent' if who in ('parent', 'entity.parent') else 'entity')}", "rm" if rm else "ins"))
-                elif f == "remove" and "attributes_keys" in unparse(x.func.value):
+                    label = lab.value if isinstance(lab, ast.Constant) else "<name>" if isinstance(lab, ast.Attribute) and lab.attr == "name" else canon(lab, roles)
+                    rm = _is_true(sc.expand(_arg(x, 2, "remove"))) if _arg(x, 2, "remove") is not None else False
+                    who = sc.expand(_arg(x, 0, "entity"))
+                    of_parent = (isinstance(who, ast.Attribute) and who.attr == "parent") or (isinstance(who, ast.Name) and roles.get(who.id) == "parent")
+                    out.add((f"S2 rows[{label}] of {('parent' if of_parent else 'entity')}", "rm" if rm else "ins"))
+                elif f in ("remove", "pop") and "attributes_keys" in recv:
                     out.add(("S1 attribute record", "rm"))
-                elif f == "remove" and unparse(x.func.value) in ("object_ids", "self.concatenated_object_ids", "self._concatenated_object_ids"):
+                elif f == "remove" and recv in ("object_ids",) + _OBJECT_IDS:
                     out.add(("S4 concatenated_object_ids", "rm"))
-                elif f == "append" and "property_group_ids" in unparse(x.func.value):
+                elif f == "append" and "property_group_ids" in recv:
                     out.add(("S5 property_group_ids", "ins"))
-                elif f in ("remove", "pop") and "property_group_ids" in unparse(x.func.value):
+                elif f in ("remove", "pop") and "property_group_ids" in recv:
                     out.add(("S5 property_group_ids", "rm"))
-            if isinstance(x, ast.Assign):
-                t = unparse(x.targets[0])
-                if t == "self.concatenated_object_ids" and not removing:
-                    out.add(("S4 concatenated_object_ids", "ins"))
-                if "Property:" in t:
-                    out.add(("S3 Property:<name> key", "ins"))
-                if t in ("self._property_group_ids", "self.property_group_ids") and removing:
-                    out.add(("S5 property_group_ids", "rm"))
-            if isinstance(x, ast.Delete) and "Property:" in unparse(x):
-                out.add(("S3 Property:<name> key", "rm"))
+                elif f == "pop" and x.args and "Property:" in unparse(x.args[0]):
+                    out.add(("S3 Property:<name> key", "rm"))
+            if isinstance(x, (ast.Assign, ast.AnnAssign)) and (isinstance(x, ast.Assign) or x.value is not None):
+                for tg in (x.targets if isinstance(x, ast.Assign) else [x.target]):
+                    t = unparse(tg)
+                    if t == "self.concatenated_object_ids" and not removing:
+                        out.add(("S4 concatenated_object_ids", "ins"))
+                    if "Property:" in t:
+                        out.add(("S3 Property:<name> key", "ins"))
+                    if t in ("self._property_group_ids", "self.property_group_ids") and removing:
+                        out.add(("S5 property_group_ids", "rm"))
+            if isinstance(x, ast.Delete):
+                if "Property:" in unparse(x):
+                    out.add(("S3 Property:<name> key", "rm"))
+                if any(isinstance(t, ast.Subscript) and "attributes_keys" in unparse(t.value) for t in x.targets):
+                    out.add(("S1 attribute record", "rm"))
     return out
 
 
@@ -80,24 +106,26 @@ def rule_pair(ctx) -> RuleResult:
     )
     p = ctx.p
     conc = p.cls("Concatenator")
-    asc = conc.methods.get("add_save_concatenated")
-    upd = conc.methods.get("update_attributes")
-    rem = conc.methods.get("remove_entity")
-    dps = p.cls("ConcatenatedData").props["parent"].setter
-    if not (asc and upd and rem):
+    if not all(n in conc.methods for n in ("add_save_concatenated", "update_attributes", "remove_entity")):
         raise AnalysisError("C04: Concatenator.add_save_concatenated / update_attributes / remove_entity not found")
+    # normalised views: private helpers (one per entity kind, the tail clean-up, ...) are expanded in place
+    asc = nview(ctx, conc.methods["add_save_concatenated"])
+    upd = nview(ctx, conc.methods["update_attributes"])
+    rem = nview(ctx, conc.methods["remove_entity"])
+    dps = nview(ctx, p.cls("ConcatenatedData").props["parent"].setter)
     for kind, facts in KINDS.items():
-        ins = {e for e, d in events(asc, asc.params[1], facts) if d == "ins"}
+        ins = {e for e, d in events(asc, asc.params[1], facts, project=p) if d == "ins"}
         if kind == "data":
-            ins |= {e for e, d in events(dps, "self", facts) if d == "ins"}
+            ins |= {e for e, d in events(dps, "self", facts, project=p) if d == "ins"}
         if kind == "hole":
             # update_attributes(hole, "property_groups") writes the hole's property-group row
-            ins |= {e for e, d in events(upd, upd.params[1], dict(facts, **{"hasattr:property_groups": True, "const:" + upd.params[2]: "property_groups"})) if d == "ins" and e.startswith("S2")}
+            ins |= {e for e, d in events(upd, upd.params[1], dict(facts, **{"hasattr:property_groups": True, "const:" + upd.params[2]: "property_groups"}), project=p)
+                    if d == "ins" and e.startswith("S2")}
         if kind == "property group":
-            ins |= {e for e, d in events(upd, upd.params[1], dict(KINDS["hole"], **{"const:" + upd.params[2]: "property_groups"})) if d == "ins" and e.startswith("S5")}
-        rm = {e for e, d in events(rem, rem.params[1], facts, removing=True) if d in ("rm",)}
+            ins |= {e for e, d in events(upd, upd.params[1], dict(KINDS["hole"], **{"const:" + upd.params[2]: "property_groups"}), project=p) if d == "ins" and e.startswith("S5")}
+        rm = {e for e, d in events(rem, rem.params[1], facts, removing=True, project=p) if d in ("rm",)}
         # a re-write of the parent's row counts as its scrub for the property-group kind
-        rm |= {e for e, d in events(rem, rem.params[1], facts, removing=True) if d == "ins" and "of parent" in e}
+        rm |= {e for e, d in events(rem, rem.params[1], facts, removing=True, project=p) if d == "ins" and "of parent" in e}
         norm = lambda s: s.replace(" of entity", "").replace(" of parent", "")  # noqa: E731
         ins_n, rm_n = {norm(e) for e in ins}, {norm(e) for e in rm}
         if kind == "hole":
@@ -124,20 +152,17 @@ def rule_rekey(ctx) -> RuleResult:
     )
     p = ctx.p
     conc = p.cls("Concatenator")
-    upd = conc.methods["update_attributes"]
-    # functions reachable from the label == 'attributes' branch
+    upd = nview(ctx, conc.methods["update_attributes"])
+    # statements executed for label == 'attributes' and for no other label (whatever the spelling / nesting of the dispatch)
     g = CFG(upd.node)
-    label = upd.params[2]
-    first = [n for n in g.nodes if n.kind == "test" and unparse(n.ast) == f"{label} == 'attributes'"]
-    if not first:
+    ent, label = upd.params[1], upd.params[2]
+    on = reach(g, [g.entry], ent, {"const:" + label: "attributes"})
+    off = reach(g, [g.entry], ent, {"const:" + label: "\0any other label"})
+    only = [n for n in on if n not in off and n.ast is not None and not isinstance(n.ast, list)]
+    if not only:
         raise AnalysisError("Concatenator.update_attributes: `label == 'attributes'` branch not found")
-    body_nodes = reach(g, [m for m, l in first[0].succ if l == "true"], stop=lambda n: False)
-    other = reach(g, [m for m, l in first[0].succ if l == "false"])
-    only = [n for n in body_nodes if n not in other]
     seen, work = set(), []
     for n in only:
-        if n.ast is None or isinstance(n.ast, list):
-            continue
         for c in ast.walk(n.ast):
             if isinstance(c, ast.Call) and isinstance(c.func, ast.Attribute) and unparse(c.func.value) == "self":
                 work.append(c.func.attr)
@@ -160,10 +185,11 @@ def rule_rekey(ctx) -> RuleResult:
         fn = m[2] if m and m[1] == "method" else None
         if fn is None:
             continue
+        sc = Scope(fn, p)
         for x in ast.walk(fn.node):
-            if isinstance(x, (ast.Assign, ast.Delete)) and "Property:" in unparse(x):
+            if isinstance(x, (ast.Assign, ast.Delete)) and "Property:" in sc.text(x):
                 writes_key = True
-            if isinstance(x, ast.Call) and isinstance(x.func, ast.Attribute) and x.func.attr == "pop" and unparse(x.func.value) in ("self.index", "self.data"):
+            if isinstance(x, ast.Call) and isinstance(x.func, ast.Attribute) and x.func.attr == "pop" and sc.text(x.func.value) in ("self.index", "self.data"):
                 relabels = True
     st = p.cls("Entity").props["name"].setter
     ok = writes_key and relabels
@@ -173,6 +199,15 @@ def rule_rekey(ctx) -> RuleResult:
                  "ConcatenatedData inherits Entity.name's setter; the route it persists through only rewrites the attribute record: after a "
                  "rename the values stay under the old label and the parent's Property:<old name> key — re-opening loses the data")
     return res
+
+
+def _const(e):
+    return e.value if isinstance(e, ast.Constant) else None
+
+
+def _record_position(e, pos, field) -> bool:
+    """`<record>[pos]` or `<record>['field']`."""
+    return isinstance(e, ast.Subscript) and _const(e.slice) in (pos, field) and not isinstance(_const(e.slice), bool)
 
 
 def rule_rec(ctx) -> RuleResult:
@@ -185,11 +220,15 @@ def rule_rec(ctx) -> RuleResult:
     )
     p = ctx.p
     conc = p.cls("Concatenator")
-    ua = conc.methods["update_array_attribute"]
+    ua = nview(ctx, conc.methods["update_array_attribute"])
+    sc = Scope(ua, p)
+    # the dtype of the records, wherever the literal lives (in the call, a local, a module / class level table, a helper)
     dt = None
     for k in ast.walk(ua.node):
-        if isinstance(k, ast.keyword) and k.arg == "dtype" and isinstance(k.value, ast.List) and all(isinstance(e, ast.Tuple) for e in k.value.elts):
-            dt = [e.elts[0].value for e in k.value.elts if isinstance(e.elts[0], ast.Constant)]
+        if isinstance(k, ast.keyword) and k.arg == "dtype":
+            v = sc.expand(k.value)
+            if isinstance(v, (ast.List, ast.Tuple)) and v.elts and all(isinstance(e, ast.Tuple) and e.elts for e in v.elts):
+                dt = [_const(e.elts[0]) for e in v.elts if isinstance(_const(e.elts[0]), str)]
     if not dt:
         raise AnalysisError("Concatenator.update_array_attribute: index record dtype literal not found")
     ok = dt[:2] == ["Start index", "Size"] and set(dt) >= {"Object ID", "Data ID"}
@@ -198,25 +237,52 @@ def rule_rec(ctx) -> RuleResult:
         res.find("Concatenator", "update_array_attribute", f"index record fields {dt}", ua.where,
                  "positional readers ([0] = start, [1] = size) and named readers no longer match the records that are written")
     # the tuple handed to fromarrays follows the same order
-    fa = [c for c in ast.walk(ua.node) if isinstance(c, ast.Call) and unparse(c.func).endswith("fromarrays")]
+    fa = [c for c in ast.walk(ua.node) if isinstance(c, ast.Call) and call_name(c) == "fromarrays"]
+
+    def value_role(e):
+        # by what the value is computed from on its paths: start <- fetch_start_index(...); size <- len(...);
+        # object id <- the parent's uid on one path; data id <- the null uuid on one path
+        srcs = sc.sources(e)
+        txt = [unparse(s_) for s_ in srcs]
+        if srcs and all(call_name(s_) == "fetch_start_index" for s_ in srcs):
+            return "start"
+        if srcs and all(isinstance(s_, ast.Call) and unparse(s_.func) == "len" for s_ in srcs):
+            return txt[0]
+        if any(".parent.uid" in t for t in txt):
+            return "obj_id"
+        if any("UUID(int=0)" in t for t in txt):
+            return "data_id"
+        return unparse(e)
+
     for c in fa:
-        if c.args and isinstance(c.args[0], ast.Tuple):
-            # roles: start <- fetch_start_index(...); object id <- one of its bindings is the parent's uid; data id <- one is the null uuid
-            rr = {nm: "start" for nm in bound_from(ua.node, lambda e: isinstance(e, ast.Call) and unparse(e.func).endswith("fetch_start_index"))}
-            rr.update({nm: "obj_id" for nm in bound_from(ua.node, lambda e: ".parent.uid" in unparse(e))})
-            rr.update({nm: "data_id" for nm in bound_from(ua.node, lambda e: "UUID(int=0)" in unparse(e))})
-            vals = [canon(e, rr) for e in c.args[0].elts]
+        rec = sc.expand(c.args[0]) if c.args else None
+        if isinstance(rec, ast.Tuple):
+            raw = c.args[0].elts if isinstance(c.args[0], ast.Tuple) else rec.elts
+            vals = [value_role(e) for e in raw]
             ok = len(vals) == len(dt) and vals[0] == "start" and vals[1].startswith("len(") and vals[2] == "obj_id" and vals[3] == "data_id"
             res.inst(f"record values {vals} follow the dtype order", nontrivial=True, ok=ok)
             if not ok:
                 res.find("Concatenator", "update_array_attribute", f"record values {vals} do not follow {dt}", f"{ua.module.relpath}:{c.lineno}",
                          "start / size / object id / data id are written into the wrong fields")
-    for fn in p.all_functions():
-        if not (fn.module.relpath.startswith("geoh5py/shared/concatenation") or fn.module.relpath.endswith("h5_reader.py")):
+    for fn0 in p.all_functions():
+        if not (fn0.module.relpath.startswith("geoh5py/shared/concatenation") or fn0.module.relpath.endswith("h5_reader.py")):
             continue
+        fn = ctx.view(fn0, inline=False)  # hoisted field-name constants substituted
+        fsc = None
         for s in ast.walk(fn.node):
-            if isinstance(s, ast.Subscript) and isinstance(s.slice, ast.Constant) and isinstance(s.slice.value, str) and "index" in unparse(s.value).lower():
-                nm = s.slice.value
+            if isinstance(s, ast.Subscript) and not isinstance(s.slice, (ast.Slice, ast.Tuple)):
+                nm = _const(s.slice)
+                if not isinstance(nm, str) and isinstance(s.slice, ast.Name):
+                    fsc = fsc or Scope(fn, p)
+                    nm = _const(fsc.expand(s.slice))
+                if not isinstance(nm, str):
+                    continue
+                recv = unparse(s.value).lower()
+                if "index" not in recv and any(isinstance(x, ast.Name) for x in ast.walk(s.value)):
+                    fsc = fsc or Scope(fn, p)
+                    recv = fsc.text(s.value).lower()  # `rows = self.index[label]; rows['Size']`
+                if "index" not in recv:
+                    continue
                 if nm in ("Index",):
                     continue
                 ok = nm in dt
@@ -224,41 +290,59 @@ def rule_rec(ctx) -> RuleResult:
                 if not ok:
                     res.find(fn.cls.name if fn.cls else fn.module.short, fn.prop or fn.name, f"index record field {nm!r} is not in the dtype {dt}",
                              f"{fn.module.relpath}:{s.lineno}", "the reader subscripts a field the writer never creates")
-            if isinstance(s, ast.keyword) and s.arg == "order" and isinstance(s.value, ast.Constant):
+            if isinstance(s, ast.keyword) and s.arg == "order" and isinstance(_const(s.value), str):
                 ok = s.value.value in dt
                 res.inst(f"{fn.qualname}: sort order {s.value.value!r}", ok=ok)
                 if not ok:
                     res.find(fn.cls.name if fn.cls else fn.module.short, fn.prop or fn.name, f"sort field {s.value.value!r} not in {dt}", f"{fn.module.relpath}:{s.value.lineno}", "")
     # comparisons against the "Start index" column use a start index (record position 0 / field "Start index"), not a row number
-    did = conc.methods["delete_index_data"]
-    defs = {}
-    for a in ast.walk(did.node):
-        if isinstance(a, ast.Assign):
-            tg = a.targets[0].elts if isinstance(a.targets[0], ast.Tuple) else [a.targets[0]]
-            vs = a.value.elts if isinstance(a.value, ast.Tuple) and len(a.value.elts) == len(tg) else [a.value] * len(tg)
-            for t_, v_ in zip(tg, vs):
-                if isinstance(t_, ast.Name):
-                    defs[t_.id] = v_
-    for cmp_ in [x for x in ast.walk(did.node) if isinstance(x, ast.Compare) and "'Start index'" in unparse(x.left)]:
-        other = cmp_.comparators[0]
-        src = defs.get(other.id) if isinstance(other, ast.Name) else other
-        txt = unparse(src) if src is not None else ""
-        ok = txt.endswith("[0]") or "'Start index'" in txt
+    did = nview(ctx, conc.methods["delete_index_data"])
+    dsc = Scope(did, p)
+    for cmp_ in [x for x in ast.walk(did.node) if isinstance(x, ast.Compare) and len(x.comparators) == 1]:
+        sides = [cmp_.left, cmp_.comparators[0]]
+        col = [i for i, e in enumerate(sides) if "'Start index'" in dsc.text(e)]
+        if not col:
+            continue
+        other = sides[1 - col[0]]
+        srcs = dsc.sources(other)
+        bare = len(srcs) == 1 and isinstance(srcs[0], ast.Name) and isinstance(other, ast.Name) and srcs[0].id == other.id  # a parameter / loop variable
+        txt = "" if bare else unparse(srcs[0])
+        ok = len(col) == 2 or (not bare and all(_record_position(s_, 0, "Start index") or "'Start index'" in unparse(s_) for s_ in srcs))
         res.inst(f"delete_index_data: `{unparse(cmp_)[:60]}` compares start indices with {txt[:40]}", nontrivial=True, ok=ok)
         if not ok:
             res.find("Concatenator", "delete_index_data", f"start indices compared with {unparse(other)} = {txt[:40]}", f"{did.module.relpath}:{cmp_.lineno}",
                      "after deleting a slice, the rows to shift are selected by comparing their start index with something that is not a start "
                      "index (a row number): other holes' rows are shifted or left behind, their values read back as foreign data")
-    # positional uses in the concatenator
+    # positional uses in the concatenator: in `x[a : a + b]` / `arange(a, a + b)`, a is a start (position 0) and b a size (position 1)
     for name in ("delete_index_data", "fetch_values"):
-        fn = conc.methods[name]
-        tup = [a for a in ast.walk(fn.node) if isinstance(a, ast.Assign) and isinstance(a.targets[0], ast.Tuple) and [unparse(t) for t in a.targets[0].elts] == ["start", "size"]]
-        for a in tup:
-            v = a.value
-            ok = isinstance(v, ast.Tuple) and unparse(v.elts[0]).endswith("[0]") and unparse(v.elts[1]).endswith("[1]")
+        fn = nview(ctx, conc.methods[name])
+        fsc = Scope(fn, p)
+        spans = []
+        for x in ast.walk(fn.node):
+            if isinstance(x, ast.Slice) and x.lower is not None and x.upper is not None:
+                spans.append((x.lower, x.upper, x))
+            elif isinstance(x, ast.Call) and call_name(x) == "arange" and len(x.args) >= 2:
+                spans.append((x.args[0], x.args[1], x))
+        done = set()
+        for lo, up, at in spans:
+            if isinstance(up, ast.Name) and isinstance(fsc.defs.single(up.id), ast.BinOp):
+                up = fsc.defs.single(up.id)
+            if not (isinstance(up, ast.BinOp) and isinstance(up.op, ast.Add)):
+                continue
+            size = up.right if unparse(up.left) == unparse(lo) else up.left if unparse(up.right) == unparse(lo) else None
+            if size is None:
+                continue
+            a_src, b_src = fsc.sources(lo), fsc.sources(size)
+            key = (tuple(unparse(e) for e in a_src), tuple(unparse(e) for e in b_src))
+            if key in done:
+                continue
+            done.add(key)
+            ok = all(_record_position(e, 0, "Start index") for e in a_src) and all(_record_position(e, 1, "Size") for e in b_src)
             res.inst(f"Concatenator.{name}: start, size = row[0], row[1]", ok=ok)
             if not ok:
-                res.find("Concatenator", name, f"start, size = {unparse(v)[:60]}", f"{fn.module.relpath}:{a.lineno}", "start and size are read from the wrong record positions")
+                shown = [unparse(fsc.defs.single(e.id)) if isinstance(e, ast.Name) and fsc.defs.single(e.id) is not None else unparse(e) for e in (lo, size)]
+                res.find("Concatenator", name, f"start, size = ({shown[0]}, {shown[1]})"[:75], f"{fn.module.relpath}:{getattr(at, 'lineno', lo.lineno)}",
+                         "start and size are read from the wrong record positions")
     return res
 
 
@@ -274,45 +358,80 @@ def rule_esc(ctx) -> RuleResult:
     FWD = ("'/'", "'⁄'")
     INV = ("'⁄'", "'/'")
 
-    def reps(fn):
-        out = []
-        for c in ast.walk(fn.node):
-            if isinstance(c, ast.Call) and isinstance(c.func, ast.Attribute) and c.func.attr == "replace" and len(c.args) == 2:
-                a = (unparse(c.args[0]), unparse(c.args[1]))
-                if a in (FWD, INV):
-                    out.append((c, "fwd" if a == FWD else "inv"))
-        return out
+    def direction(c, sc):
+        """'fwd' / 'inv' for a call `<x>.replace('/', U+2044)` / `<x>.replace(U+2044, '/')`, else None."""
+        if isinstance(c, ast.Call) and isinstance(c.func, ast.Attribute) and c.func.attr == "replace" and len(c.args) == 2:
+            a = (sc.text(c.args[0]), sc.text(c.args[1]))
+            return "fwd" if a == FWD else "inv" if a == INV else None
+        return None
 
-    uc = p.func("H5Writer.update_concatenated_field")
-    r = reps(uc)
-    name_def = [a for a in ast.walk(uc.node) if isinstance(a, ast.Assign) and any(c is a.value for c, d in r if d == "fwd")]
-    ok = bool(name_def)
-    var = unparse(name_def[0].targets[0]) if ok else None
-    uses = [x for x in ast.walk(uc.node) if (isinstance(x, ast.Delete) and any(isinstance(t, ast.Subscript) for t in x.targets)) or (isinstance(x, ast.Call) and isinstance(x.func, ast.Attribute) and x.func.attr == "create_dataset")]
-    ok = ok and all((unparse(x.targets[0].slice) == var) if isinstance(x, ast.Delete) else (unparse(x.args[0]) == var) for x in uses)
-    res.inst(f"writer: dataset name = channel.replace('/', U+2044), used for delete and create ({var})", nontrivial=True, ok=ok)
+    def reps(fn, sc):
+        return [(c, direction(c, sc)) for c in ast.walk(fn.node) if direction(c, sc)]
+
+    def escaped(e, sc):
+        """On every path the value is the forward-escaped name (whatever temporaries / helpers it went through)."""
+        srcs = sc.sources(e)
+        return bool(srcs) and all(direction(s_, sc) == "fwd" for s_ in srcs)
+
+    uc = nview(ctx, "H5Writer.update_concatenated_field")
+    sc = Scope(uc, p)
+    creates = [x for x in ast.walk(uc.node) if isinstance(x, ast.Call) and call_name(x) == "create_dataset" and _arg(x, 0, "name") is not None]
+    if not creates:
+        raise AnalysisError("H5Writer.update_concatenated_field: create_dataset(<name>, ...) not found")
+    uses = [_arg(x, 0, "name") for x in creates]
+    uses += [t.slice for x in ast.walk(uc.node) if isinstance(x, ast.Delete) for t in x.targets if isinstance(t, ast.Subscript)]
+    ok = all(escaped(u, sc) for u in uses)
+    res.inst(f"writer: dataset name = channel.replace('/', U+2044), used for delete and create ({len(uses)} uses)", nontrivial=True, ok=ok)
     if not ok:
         res.find("H5Writer", "update_concatenated_field", "channel name not escaped consistently", uc.where,
                  "a data name containing '/' creates nested HDF5 groups instead of one dataset")
-    rd = p.func("H5Reader.fetch_concatenated_values")
-    gets = [c for c in ast.walk(rd.node) if isinstance(c, ast.Call) and isinstance(c.func, ast.Attribute) and c.func.attr == "get" and "group" in unparse(c.func.value)]
-    for c in gets:
-        a = c.args[0]
-        ok = isinstance(a, ast.Call) and isinstance(a.func, ast.Attribute) and a.func.attr == "replace" and (unparse(a.args[0]), unparse(a.args[1])) == FWD
+    rd = nview(ctx, "H5Reader.fetch_concatenated_values")
+    rsc = Scope(rd, p)
+
+    def group_path(e):
+        # <...>['Concatenated Data'] followed by constant member names only: the group or one of its sub-groups (not a dataset
+        # that was looked up by name, nor the array read from it)
+        if isinstance(e, ast.Subscript) and isinstance(_const(e.slice), str):
+            return e.slice.value == "Concatenated Data" or group_path(e.value)
+        if isinstance(e, ast.Call) and isinstance(e.func, ast.Attribute) and e.func.attr == "get" and e.args and isinstance(_const(e.args[0]), str):
+            return e.args[0].value == "Concatenated Data" or group_path(e.func.value)
+        return False
+
+    def in_group(recv):
+        # the receiver is (a member of) the entity's 'Concatenated Data' group, whatever the local is called
+        return any(group_path(s_) for s_ in rsc.sources(recv))
+
+    group_names = {nm: "group" for nm in rsc.defs.all if in_group(ast.Name(id=nm, ctx=ast.Load()))}
+    lookups = []
+    for c in ast.walk(rd.node):
+        if isinstance(c, ast.Call) and isinstance(c.func, ast.Attribute) and c.func.attr == "get" and c.args and in_group(c.func.value):
+            if not isinstance(_const(rsc.expand(c.args[0])), str):
+                lookups.append((c, c.func.value, c.args[0], f"{canon(c.func.value, group_names)}.get"))
+        elif isinstance(c, ast.Subscript) and isinstance(c.ctx, ast.Load) and not isinstance(c.slice, ast.Slice) and in_group(c.value):
+            if not isinstance(_const(rsc.expand(c.slice)), str):
+                lookups.append((c, c.value, c.slice, f"{canon(c.value, group_names)}[]"))
+        elif isinstance(c, ast.Compare) and len(c.ops) == 1 and isinstance(c.ops[0], (ast.In, ast.NotIn)) and in_group(c.comparators[0]):
+            if not isinstance(_const(rsc.expand(c.left)), str):
+                lookups.append((c, c.comparators[0], c.left, f"in {canon(c.comparators[0], group_names)}"))
+    for c, _recv, a, how in lookups:
+        ok = escaped(a, rsc)
         res.inst(f"reader lookup {unparse(c)[:60]} applies the forward escape", nontrivial=True, ok=ok)
         if not ok:
-            res.find("H5Reader", "fetch_concatenated_values", f"lookup {unparse(c)[:50]} without the '/' escape", f"{rd.module.relpath}:{c.lineno}",
+            res.find("H5Reader", "fetch_concatenated_values", f"lookup {how} of an un-escaped name", f"{rd.module.relpath}:{c.lineno}",
                      "values of data whose name contains '/' cannot be found after re-opening")
     for spec, what in (("Concatenator.fetch_concatenated_data_index", "labels of index/data"), ("ConcatenatedObject.get_data_list", "data names"),
                        ("Workspace.create_from_concatenation", "entity names")):
-        fn = p.func(spec)
-        rr = reps(fn)
+        fn = nview(ctx, spec)
+        rr = reps(fn, Scope(fn, p))
         ok = any(d == "inv" for _, d in rr) and not any(d == "fwd" for _, d in rr)
         res.inst(f"{spec}: listed {what} are un-escaped", ok=ok)
         if not ok:
             res.find(spec.split(".")[0], spec.split(".")[1], "listed names are not un-escaped", fn.where,
                      "names containing '/' come back with U+2044 and no longer match the data's own name")
     return res
+
+
+_MUTATORS = ("remove", "append", "pop", "insert", "extend", "clear", "update", "setdefault")
 
 
 def rule_defer(ctx) -> RuleResult:
@@ -326,30 +445,32 @@ def rule_defer(ctx) -> RuleResult:
     )
     p = ctx.p
     conc = p.cls("Concatenator")
-    targets = [conc.methods[n] for n in ("update_concatenated_attributes", "remove_entity") if n in conc.methods]
-    if len(targets) < 2:
+    if not all(n in conc.methods for n in ("update_concatenated_attributes", "remove_entity")):
         raise AnalysisError("C04.DEFER: Concatenator.update_concatenated_attributes / remove_entity not found")
-    for fn in targets:
+    for fn in [nview(ctx, conc.methods[n]) for n in ("update_concatenated_attributes", "remove_entity")]:
         g = CFG(fn.node)
-        aliases = {unparse(a.targets[0]) for a in ast.walk(fn.node) if isinstance(a, ast.Assign) and "get_concatenated_attributes" in unparse(a.value)}
+        sc = Scope(fn, p)
+        # locals that hold a record: bound (on some path) from get_concatenated_attributes(...)
+        aliases = {nm for nm in sc.defs.all if any(call_name(x) == "get_concatenated_attributes" for v in sc.defs.of(nm) for s_ in sc.sources(v) for x in ast.walk(s_))}
 
-        def edits(n, aliases=aliases):
+        def edits(n, aliases=aliases, sc=sc):
             if n.ast is None or isinstance(n.ast, list) or n.kind != "stmt":
                 return False
             for x in ast.walk(n.ast):
-                if isinstance(x, ast.Subscript) and isinstance(x.ctx, (ast.Store, ast.Del)) and (unparse(x.value) in aliases or "concatenated_attributes" in unparse(x.value)):
+                if isinstance(x, ast.Subscript) and isinstance(x.ctx, (ast.Store, ast.Del)) and (unparse(x.value) in aliases or "concatenated_attributes" in sc.text(x.value)):
                     return True
-                if isinstance(x, ast.Call) and isinstance(x.func, ast.Attribute) and x.func.attr in ("remove", "append", "pop") and "concatenated_attributes" in unparse(x.func.value):
+                if isinstance(x, ast.Call) and isinstance(x.func, ast.Attribute) and x.func.attr in _MUTATORS and \
+                        ("concatenated_attributes" in sc.text(x.func.value) or unparse(x.func.value) in aliases):
                     return True
             return False
 
-        def flags(n):
+        def flags(n, sc=sc):
             if n.ast is None or isinstance(n.ast, list):
                 return False
             for x in ast.walk(n.ast):
-                if isinstance(x, ast.Assign) and unparse(x.targets[0]).endswith("workspace.repack") and unparse(x.value) == "True":
+                if isinstance(x, ast.Assign) and sc.text(x.targets[0]).endswith("workspace.repack") and _is_true(sc.expand(x.value)):
                     return True
-                if isinstance(x, ast.Call) and isinstance(x.func, ast.Attribute) and x.func.attr == "update_attribute" and "concatenated_attributes" in unparse(x):
+                if isinstance(x, ast.Call) and call_name(x) == "update_attribute" and "concatenated_attributes" in sc.text(x):
                     return True
             return False
 
@@ -357,7 +478,9 @@ def rule_defer(ctx) -> RuleResult:
         # `self.concatenated_attributes is not None and self.attributes_keys is not None` holds whenever a record was edited
         facts = {"truthy:self.concatenated_attributes": True, "truthy:self.attributes_keys": True,
                  "notnone:self.concatenated_attributes": True, "notnone:self.attributes_keys": True}
-        bad = [n for n in e_nodes if g.exit in reach(g, [m for m, _ in n.succ], "self", facts, avoid=flags)]
+        # an edit is covered when the flag is set on every path through it: after it on all normal paths, or before it on all paths
+        unflagged = reach(g, [g.entry], "self", facts, avoid=flags)
+        bad = [n for n in e_nodes if n in unflagged and g.exit in reach(g, [m for m, _ in n.succ], "self", facts, avoid=flags)]
         ok = bool(e_nodes) and not bad
         res.inst(f"{fn.qualname}: {len(e_nodes)} in-place edits of attribute records, each followed by workspace.repack = True", nontrivial=True, ok=ok)
         if not e_nodes:
@@ -366,24 +489,45 @@ def rule_defer(ctx) -> RuleResult:
             res.find("Concatenator", fn.name, "attribute record edited without setting workspace.repack", f"{fn.module.relpath}:{bad[0].lineno}",
                      "the edited records are only written back by close() when workspace.repack is set: without the flag the change of a "
                      "concatenated entity's attributes (or its removal) never reaches the file")
-    cl = p.func("Workspace.close")
-    loops = [lp for lp in ast.walk(cl.node) if isinstance(lp, ast.For) and "self.groups" in unparse(lp.iter)]
+    # Workspace.close: the write-back = update_attribute(<group>, 'concatenated_attributes') for every group of self.groups that is a
+    # Concatenator, while self.repack holds — decided on the conditions that guard the call (nested ifs, guard clauses, De Morgan
+    # and a filtering comprehension are the same thing), wherever the loop is written (close itself or a private helper)
+    cl = nview(ctx, "Workspace.close")
+    csc = Scope(cl, p)
+
+    def is_write_back(c):
+        return isinstance(c, ast.Call) and call_name(c) == "update_attribute" and len(c.args) >= 2 and _const(csc.expand(c.args[1])) == "concatenated_attributes"
+
     ok = False
-    for lp in loops:
-        body = unparse(ast.Module(body=lp.body, type_ignores=[]))
-        for i in [x for x in lp.body if isinstance(x, ast.If)]:
-            conj = {unparse(v) for v in (i.test.values if isinstance(i.test, ast.BoolOp) and isinstance(i.test.op, ast.And) else [i.test])}
-            tgt = unparse(lp.target)
-            inner = unparse(ast.Module(body=i.body, type_ignores=[]))
-            if conj == {f"isinstance({tgt}, Concatenator)", "self.repack"} and "update_attribute" in inner and "concatenated_attributes" in inner:
+    for w in [c for c in ast.walk(cl.node) if is_write_back(c)]:
+        for lp in [x for x in ast.walk(cl.node) if isinstance(x, ast.For) and contains(x, w) and isinstance(x.target, ast.Name)]:
+            tgt = lp.target.id
+            it = csc.expand(lp.iter)
+            inner, outer = set(), set()
+            if isinstance(it, (ast.ListComp, ast.GeneratorExp)) and len(it.generators) == 1 and isinstance(it.generators[0].target, ast.Name) \
+                    and unparse(it.elt) == it.generators[0].target.id:
+                gen = it.generators[0]
+                for c in gen.ifs:
+                    for a, pol in atoms(c):
+                        inner.add((canon(csc.expand(a), {gen.target.id: tgt}), pol))
+                it = gen.iter
+            if "self.groups" not in unparse(it) or not isinstance(w.args[0], ast.Name) or w.args[0].id != tgt:
+                continue
+            for t, pol, holder in guards_of(cl.node, w):
+                for a, apol in atoms(t, pol):
+                    (inner if contains(lp, holder) and holder is not lp else outer).add((csc.text(a), apol))
+            want = {(f"isinstance({tgt}, Concatenator)", True), ("self.repack", True)}
+            if want <= (inner | outer) and inner <= want:
                 ok = True
     res.inst("Workspace.close: for every Concatenator, if repack: update_attribute(entity, 'concatenated_attributes')", nontrivial=True, ok=ok)
     if not ok:
         res.find("Workspace", "close", "deferred write-back of concatenated attribute records missing", cl.where,
                  "edits of concatenated entities' attributes are never written")
     g = CFG(cl.node)
-    wb = [n for n in g.nodes if n.ast is not None and not isinstance(n.ast, list) and "concatenated_attributes" in unparse(n.ast) and "update_attribute" in unparse(n.ast)]
-    closes = [n for n in g.nodes if n.ast is not None and not isinstance(n.ast, list) and unparse(n.ast).startswith("self.geoh5.close(")]
+    live = [n for n in g.nodes if n.ast is not None and not isinstance(n.ast, list)]
+    wb = [n for n in live if any(is_write_back(c) for c in ast.walk(n.ast if n.kind != "with" else ast.Module(body=[], type_ignores=[])))]
+    closes = [n for n in live if n.kind != "with" and any(isinstance(c, ast.Call) and call_name(c) == "close" and isinstance(c.func, ast.Attribute)
+                                                          and csc.text(c.func.value) in ("self.geoh5", "self._geoh5") for c in ast.walk(n.ast))]
     ok = bool(wb) and all(not (set(reach(g, [c])) & set(wb)) for c in closes)
     res.inst("Workspace.close: the write-back precedes File.close()", ok=ok)
     if not ok:
@@ -419,6 +563,17 @@ def is_fresh(expr) -> bool:
     return False
 
 
+def _root_name(e):
+    """The local an access path starts from: `h['a'].get(k)` -> h."""
+    while True:
+        if isinstance(e, (ast.Subscript, ast.Attribute, ast.Starred)):
+            e = e.value
+        elif isinstance(e, ast.Call):
+            e = e.func
+        else:
+            return e.id if isinstance(e, ast.Name) else None
+
+
 def rule_fresh(ctx) -> RuleResult:
     res = RuleResult(
         "C04.FRESH",
@@ -429,78 +584,103 @@ def rule_fresh(ctx) -> RuleResult:
         floor=4,
     )
     p = ctx.p
-    # (a) in-place stores on local arrays in the two value writers
+    # (a) in-place stores on local arrays in the two value writers (and the private helpers they delegate to): every
+    # definition of the array that reaches the store (CFG, reaching definitions) builds a new array
     for spec in ("H5Writer.update_concatenated_field", "H5Writer.write_data_values"):
-        fn = p.func(spec)
-        body = list(ast.walk(fn.node))
-        for st in body:
-            if not (isinstance(st, ast.Assign) and isinstance(st.targets[0], ast.Subscript) and isinstance(st.targets[0].value, ast.Name)):
+        fn = ctx.view(spec)
+        rd = Reaching(fn.node)
+        wroles = writer_roles(fn.node)
+        sc = Scope(fn, p)
+
+        def is_handle(var, wroles=wroles, sc=sc):
+            role = wroles.get(var, var)
+            if role.endswith("handle") or role == "h5file":
+                return True
+            roots = {_root_name(v) for v in sc.defs.of(var)}
+            return bool(roots) and all(r is not None and r != var and (wroles.get(r, r).endswith("handle") or wroles.get(r, r) == "h5file") for r in roots)
+
+        def fresh_at(stmt, var, rd=rd, _depth=0):
+            """(all reaching definitions of var at stmt are fresh, text of one that is not)."""
+            ds = rd.at(stmt, var)
+            if not ds:
+                return False, "unbound"
+            for did, v in ds:
+                if v is PARAM:
+                    return False, "parameter"
+                if v is OPAQUE:
+                    return False, "loop / augmented binding"
+                if isinstance(v, ast.Name) and _depth < 6:
+                    ok_, why = fresh_at(rd.def_node(did), v.id, rd, _depth + 1)
+                    if not ok_:
+                        return False, why if why != "parameter" or v.id in fn.params else unparse(v)
+                elif not is_fresh(v):
+                    return False, unparse(v)
+            return True, unparse(ds[-1][1]) if not isinstance(ds[-1][1], str) else ds[-1][1]
+
+        for st in ast.walk(fn.node):
+            if isinstance(st, ast.Assign) and isinstance(st.targets[0], ast.Subscript) and isinstance(st.targets[0].value, ast.Name):
+                tgt = st.targets[0]
+            elif isinstance(st, ast.AugAssign) and isinstance(st.target, ast.Subscript) and isinstance(st.target.value, ast.Name):
+                tgt = st.target
+            else:
                 continue
-            var = st.targets[0].value.id
-            wroles = writer_roles(fn.node)
-            if wroles.get(var, var).endswith("handle") or wroles.get(var, var) == "h5file":
+            var = tgt.value.id
+            if is_handle(var):
                 continue
-            # the closest preceding assignment to `var` (source order) must be fresh
-            defs = [a for a in body if isinstance(a, ast.Assign) and any(isinstance(t, ast.Name) and t.id == var for t in a.targets) and a.lineno < st.lineno]
-            last = max(defs, key=lambda a: a.lineno) if defs else None
-            ok = last is not None and is_fresh(last.value)
-            res.inst(f"{spec}:{st.lineno} in-place `{unparse(st.targets[0])[:40]} = ...` on a fresh array ({unparse(last.value)[:40] if last else 'parameter'})", nontrivial=True, ok=ok)
+            ok, src = fresh_at(st, var)
+            res.inst(f"{spec}:{st.lineno} in-place `{unparse(tgt)[:40]} = ...` on a fresh array ({src[:40]})", nontrivial=True, ok=ok)
             if not ok:
-                res.find("H5Writer", fn.name, f"in-place store into `{var}`, which may alias the entity's array: {unparse(last.value)[:50] if last else 'parameter'}",
+                res.find("H5Writer", fn.name, f"in-place store into `{var}`, which may alias the entity's array: {src[:50]}",
                          f"{fn.module.relpath}:{st.lineno}",
                          "the writer's no-data substitution is applied to the very array the entity / concatenator holds in memory: other holes "
                          "reading the shared array see 1.17549435e-38 instead of NaN in the same session")
     # (b) Concatenator.copy
-    cp = p.func("Concatenator.copy")
+    cp = nview(ctx, "Concatenator.copy")
     # role: the copy = the local bound from super().copy(...) (and returned)
     cp_roles = {nm: "new_entity" for nm in bound_from(cp.node, lambda e: isinstance(e, ast.Call) and unparse(e.func) in ("super().copy", "super(Concatenator, self).copy"))}
     if not cp_roles:
         cp_roles = {nm: "new_entity" for nm in returned_names(cp.node)}
-    _plain_unparse = unparse
-    unparse_cp = lambda n: canon(n, cp_roles)  # noqa: E731
+    csc = Scope(cp, p, keep=cp_roles)
+    unparse_cp = lambda n: canon(csc.expand(n), cp_roles)  # noqa: E731
     sinks = []
     for a in ast.walk(cp.node):
         if isinstance(a, ast.Assign):
             tg = a.targets[0].elts if isinstance(a.targets[0], ast.Tuple) else [a.targets[0]]
-            for t in tg:
+            vs = a.value.elts if isinstance(a.targets[0], ast.Tuple) and isinstance(a.value, ast.Tuple) and len(a.value.elts) == len(tg) else [a.value] * len(tg)
+            for t, v in zip(tg, vs):
                 if isinstance(t, ast.Subscript) and unparse_cp(t.value) in ("new_entity.data", "new_entity.index"):
-                    sinks.append((t, a))
+                    sinks.append((t, a, v))
     if not sinks:
         raise AnalysisError("Concatenator.copy: stores into new_entity.data / .index not found")
-    defs = {}
-    for a in ast.walk(cp.node):
-        if isinstance(a, ast.Assign) and isinstance(a.targets[0], ast.Name):
-            defs.setdefault(a.targets[0].id, []).append(a.value)
-    for t, a in sinks:
-        v = a.value
-        srcs = defs.get(v.id, []) if isinstance(v, ast.Name) else [v]
-        ok = bool(srcs) and all((isinstance(s, ast.Call) and (unparse(s.func).endswith("fetch_concatenated_values") or is_fresh(s))) for s in srcs)
+    for t, a, v in sinks:
+        srcs = csc.sources(v)
+        ok = bool(srcs) and all((isinstance(s, ast.Call) and (call_name(s) == "fetch_concatenated_values" or is_fresh(s))) for s in srcs)
         res.inst(f"Concatenator.copy:{a.lineno} {unparse(t)[:40]} <- {[unparse(s)[:50] for s in srcs]}", nontrivial=True, ok=ok)
         if not ok:
-            res.find("Concatenator", "copy", f"{unparse(t)[:40]} filled from {unparse(v)[:40]}", f"{cp.module.relpath}:{a.lineno}",
+            res.find("Concatenator", "copy", f"{canon(t, cp_roles)[:40]} filled from {unparse(v)[:40]}", f"{cp.module.relpath}:{a.lineno}",
                      "the copy's concatenated tables are the source's own arrays: removing or updating an entry in the copy shifts the start "
                      "indices of the source in place")
     for a in ast.walk(cp.node):
-        if isinstance(a, ast.Assign) and isinstance(a.targets[0], ast.Attribute) and unparse_cp(a.targets[0].value) == "new_entity" and isinstance(a.value, ast.Attribute) \
-                and unparse(a.value.value) == "self":
+        if not (isinstance(a, ast.Assign) and isinstance(a.targets[0], ast.Attribute) and unparse_cp(a.targets[0].value) == "new_entity"):
+            continue
+        val = csc.expand(a.value)
+        if isinstance(val, ast.Attribute) and unparse(val.value) == "self":
             ok = False
             res.inst(f"Concatenator.copy:{a.lineno} {unparse(a)[:70]} (source's own container handed to the copy)", nontrivial=True, ok=ok)
-            res.find("Concatenator", "copy", f"{unparse(a.targets[0])} shares the source's {a.value.attr} container", f"{cp.module.relpath}:{a.lineno}",
+            res.find("Concatenator", "copy", f"{canon(a.targets[0], cp_roles)} shares the source's {val.attr} container", f"{cp.module.relpath}:{a.lineno}",
                      f"the copy's {a.targets[0].attr} is the source's own dict / list: adding or removing entities in the copy edits the source's "
                      "records in place (and its file at the next close)")
-        elif isinstance(a, ast.Assign) and isinstance(a.targets[0], ast.Attribute) and unparse_cp(a.targets[0].value) == "new_entity" and "self." in unparse(a.value):
-            res.inst(f"Concatenator.copy:{a.lineno} {unparse(a)[:70]} (copied)", nontrivial=True, ok=is_fresh(a.value) or unparse(a.value).startswith(("deepcopy(", "list(", "dict(")))
+        elif "self." in unparse(val):
+            res.inst(f"Concatenator.copy:{a.lineno} {unparse(a)[:70]} (copied)", nontrivial=True, ok=is_fresh(val) or unparse(val).startswith(("deepcopy(", "list(", "dict(")))
     # (c) no cast of the stored values
-    ua = p.func("Concatenator.update_array_attribute")
-    stores = [a for a in ast.walk(ua.node) if isinstance(a, ast.Assign) and unparse(a.targets[0]).startswith("self.data[")]
+    ua = nview(ctx, "Concatenator.update_array_attribute")
+    usc = Scope(ua, p)
+    stores = [a for a in ast.walk(ua.node) if isinstance(a, ast.Assign) and usc.text(a.targets[0]).startswith("self.data[")]
     if not stores:
         raise AnalysisError("Concatenator.update_array_attribute: store into self.data[...] not found")
-    defs = {}
-    for a in ast.walk(ua.node):
-        if isinstance(a, ast.Assign) and isinstance(a.targets[0], ast.Name):
-            defs.setdefault(a.targets[0].id, []).append(a.value)
     for a in stores:
-        srcs = defs.get(a.value.id, []) if isinstance(a.value, ast.Name) else [a.value]
+        # every definition of the stored value, first as written (for the message), then with its temporaries expanded
+        srcs = (usc.defs.of(a.value.id) if isinstance(a.value, ast.Name) else [a.value]) + usc.sources(a.value)
         casts = [unparse(x)[:60] for s in srcs for x in ast.walk(s) if isinstance(x, ast.Call) and isinstance(x.func, ast.Attribute) and x.func.attr == "astype"]
         ok = not casts
         res.inst(f"update_array_attribute:{a.lineno} values stored into self.data[...] without a cast", nontrivial=True, ok=ok)
@@ -522,19 +702,30 @@ def rule_namekey(ctx) -> RuleResult:
     )
     p = ctx.p
     conc = p.cls("Concatenator")
-    ua = conc.methods["update_array_attribute"]
+    ua = nview(ctx, conc.methods["update_array_attribute"])
+    sc = Scope(ua, p)
     ent, fld = ua.params[1], ua.params[2]
-    by_name = [i for i in ast.walk(ua.node) if isinstance(i, ast.If) and unparse(i.test).replace('"', "'") in (f"hasattr({ent}, f'_{{{fld}}}')", f"hasattr({ent}, '_' + {fld})")]
+
+    def is_param(e, prm):
+        return any(isinstance(s_, ast.Name) and s_.id == prm for s_ in sc.sources(e))
+
+    def built_from_field(e):
+        # a string computed from the field: f'_{field}' / '_' + field (through temporaries / helper parameters)
+        for s_ in sc.sources(e):
+            if isinstance(s_, (ast.JoinedStr, ast.BinOp)) and any(isinstance(x, ast.Name) and is_param(x, fld) for x in ast.walk(s_)):
+                return True
+        return False
+
+    by_name = [c for c in ast.walk(ua.node) if isinstance(c, ast.Call) and isinstance(c.func, ast.Name) and c.func.id == "hasattr" and len(c.args) == 2
+               and is_param(c.args[0], ent) and built_from_field(c.args[1])]
     name_sites = []
     for fn in p.all_functions():
+        fsc = None
         for c_ in ast.walk(fn.node):
-            if isinstance(c_, ast.Call) and isinstance(c_.func, ast.Attribute) and c_.func.attr == "update_array_attribute" and len(c_.args) >= 2:
-                a = c_.args[1]
-                is_name = unparse(a).endswith(".name")
-                if isinstance(a, ast.Name):
-                    # label = entity.name assigned earlier in the caller
-                    is_name = any(isinstance(x, ast.Assign) and unparse(x.targets[0]) == a.id and unparse(x.value).endswith(".name") for x in ast.walk(fn.node))
-                if is_name:
+            if isinstance(c_, ast.Call) and isinstance(c_.func, ast.Attribute) and c_.func.attr == "update_array_attribute" and _arg(c_, 1, "field") is not None:
+                fsc = fsc or Scope(fn, p)
+                # the field is <something>.name, directly or through a local bound to it on some path
+                if any(isinstance(s_, ast.Attribute) and s_.attr == "name" for s_ in fsc.sources(_arg(c_, 1, "field"))):
                     name_sites.append(f"{fn.qualname}:{c_.lineno}")
     for s_ in name_sites:
         res.inst(f"call site passes a data name as field: {s_}", nontrivial=True, ok=not by_name)
